@@ -59,6 +59,7 @@ type Event struct {
 	InDefer    bool // executed while deferred calls are running
 	Panicking  bool // executed while a panic is in flight
 	PanicsHere bool // this call is where the modelled panic originates
+	GoexitHere bool // this call is where the modelled runtime.Goexit happens
 	Inlined    bool
 	SelIndex   int
 	SelN       int
@@ -77,10 +78,11 @@ const (
 	ExitPanic
 	ExitCut // loop bound reached
 	ExitNoReturn
+	ExitGoexit // the goroutine was ended by runtime.Goexit at a user call (Config.MayGoexit): defers ran, recover() saw nil
 )
 
 func (k ExitKind) String() string {
-	return [...]string{"return", "panic", "loop-cut", "no-return"}[k]
+	return [...]string{"return", "panic", "loop-cut", "no-return", "goexit"}[k]
 }
 
 type Path struct {
@@ -108,6 +110,9 @@ type Config struct {
 	Inline func(ci *CallInfo, depth int) bool
 	// MayPanic: fork a panic exit at this (non-inlined) call.
 	MayPanic func(ci *CallInfo) bool
+	// MayGoexit: fork an exit at this (non-inlined) call on which the callee ends the goroutine with
+	// runtime.Goexit (t.FailNow in a callback, …): deferred calls run, recover() returns nil, nothing returns.
+	MayGoexit func(ci *CallInfo) bool
 	// Model gives library summaries for calls that invoke their function arguments.
 	Model func(in *Interp, st *State, ci *CallInfo) *Model
 	// ParamAbs presets abstract values for root parameters (by name).
@@ -147,6 +152,7 @@ type Frame struct {
 }
 
 type outcome struct {
+	goexit  bool
 	panic   bool
 	cut     bool
 	noret   bool
@@ -167,13 +173,14 @@ type State struct {
 	canon     map[ckey]*Sym
 	events    []Event
 	panicking bool
+	goexiting bool
 	panicVal  *Sym
 	steps     int
 	params    map[*ssa.Parameter]*Sym // root parameters (shared, read-only)
 }
 
 func (st *State) clone() *State {
-	n := &State{panicking: st.panicking, panicVal: st.panicVal, steps: st.steps, params: st.params}
+	n := &State{panicking: st.panicking, goexiting: st.goexiting, panicVal: st.panicVal, steps: st.steps, params: st.params}
 	n.frames = make([]*Frame, len(st.frames))
 	for i, f := range st.frames {
 		nf := *f
@@ -332,6 +339,8 @@ func Run(cfg Config, fn *ssa.Function) ([]*Path, *Interp, error) {
 		in.enter(st, fn, args, binds, nil, false, nil, func(st *State, out outcome) {
 			p := &Path{Events: st.events, Results: out.results, st: st}
 			switch {
+			case out.goexit:
+				p.Exit = ExitGoexit
 			case out.panic:
 				p.Exit = ExitPanic
 			case out.cut:
@@ -1010,7 +1019,7 @@ func (in *Interp) doCall(st *State, fi int, ci *CallInfo, instr ssa.Instruction,
 	if in.shouldInline(st, ci) {
 		in.emit(st, fi, Event{Kind: EvCall, Instr: instr, Call: ci, Inlined: true})
 		in.enter(st, ci.Static, ci.Args, ci.Bindings, ci, asDefer, nil, func(st *State, out outcome) {
-			if out.panic {
+			if out.panic || out.goexit {
 				in.unwind(st, fi)
 				return
 			}
@@ -1049,6 +1058,13 @@ func (in *Interp) doCall(st *State, fi int, ci *CallInfo, instr ssa.Instruction,
 		st2.panicking = true
 		st2.panicVal = in.newSym(&Sym{Kind: KPanicVal})
 		in.unwind(st2, fi)
+	}
+	if in.cfg.MayGoexit != nil && in.cfg.MayGoexit(ci) && !st.panicking && !st.goexiting {
+		in.Stats.Forks++
+		st3 := st.clone()
+		in.emit(st3, fi, Event{Kind: EvCall, Instr: instr, Call: ci, Res: res, GoexitHere: true})
+		st3.goexiting = true
+		in.unwind(st3, fi)
 	}
 	in.emit(st, fi, Event{Kind: EvCall, Instr: instr, Call: ci, Res: res})
 	// closures handed to a callee we do not analyse may run there: forget their cells
@@ -1112,7 +1128,7 @@ func (in *Interp) invokeAll(st *State, fi int, via *CallInfo, instr ssa.Instruct
 	if ci.Static != nil && ci.Static.Blocks != nil && len(st.frames) <= in.cfg.MaxDepth+2 {
 		in.emit(st, fi, Event{Kind: EvCall, Instr: instr, Call: ci, Inlined: true, Via: via})
 		in.enter(st, ci.Static, ci.Args, ci.Bindings, ci, false, via, func(st *State, out outcome) {
-			if out.panic {
+			if out.panic || out.goexit {
 				in.unwind(st, fi)
 				return
 			}
@@ -1131,6 +1147,12 @@ func (in *Interp) invokeAll(st *State, fi int, via *CallInfo, instr ssa.Instruct
 		st2.panicking = true
 		st2.panicVal = in.newSym(&Sym{Kind: KPanicVal})
 		in.unwind(st2, fi)
+	}
+	if in.cfg.MayGoexit != nil && in.cfg.MayGoexit(ci) && !st.panicking && !st.goexiting {
+		st3 := st.clone()
+		in.emit(st3, fi, Event{Kind: EvCall, Instr: instr, Call: ci, GoexitHere: true, Via: via})
+		st3.goexiting = true
+		in.unwind(st3, fi)
 	}
 	in.emit(st, fi, Event{Kind: EvCall, Instr: instr, Call: ci, Via: via})
 	cont(st)
@@ -1198,6 +1220,10 @@ func (in *Interp) unwind(st *State, fi int) {
 	// keep running the remaining defers (Go semantics)
 	in.runDefers(st, fi, func(st *State) {
 		fr := st.frames[fi]
+		if st.goexiting && !st.panicking {
+			in.leave(st, fi, outcome{goexit: true})
+			return
+		}
 		if !st.panicking {
 			if fr.fn.Recover != nil {
 				fr.visits = map[*ssa.BasicBlock]int{}
